@@ -1,1 +1,61 @@
-/- C07 — property theorems (stub: not built yet) -/
+import Rivaas.Spec.OpenAPI
+/-
+C07 — property theorems (generated OpenAPI documents are valid, closed, complete and deterministic).
+-/
+namespace Rivaas.C07
+open Rivaas.OpenAPI
+
+/-! ### component names (K07c) -/
+
+theorem lemma_nameByteOK_iff (c : Char) : nameByteOK c = nameCharOK c := rfl
+
+/-- every byte `sanitizeComponentName` leaves in a name is allowed in a component key -/
+theorem sanitize_ok (name : B) : (sanitize name).all nameCharOK = true := by
+  simp only [sanitize, List.all_map, List.all_eq_true]
+  intro c _
+  simp only [Function.comp]
+  by_cases h : nameByteOK c = true
+  · simp [h, ← lemma_nameByteOK_iff]
+  · have : nameByteOK '_' = true := by decide
+    simp [h, ← lemma_nameByteOK_iff, this]
+
+theorem lemma_sanitize_length (name : B) : (sanitize name).length = name.length := by simp [sanitize]
+
+/-- `schemaName` is empty (anonymous struct: never registered) or matches `^[a-zA-Z0-9._-]+$` -/
+theorem schemaName_wellformed (name pkgPath : B) :
+    schemaName name pkgPath = [] ∨ nameOK (schemaName name pkgPath) = true := by
+  unfold schemaName
+  by_cases h0 : name = []
+  · simp [h0]
+  · right
+    have hne : ∀ x : B, x ≠ [] → nameOK (sanitize x) = true := by
+      intro x hx
+      simp only [nameOK, Bool.and_eq_true, sanitize_ok, and_true]
+      cases x with
+      | nil => exact absurd rfl hx
+      | cons c cs => simp [sanitize]
+    simp only [h0, if_false]
+    split
+    · exact hne _ h0
+    · split
+      · exact hne _ h0
+      · apply hne
+        intro h
+        have := congrArg List.length h
+        simp [s] at this
+
+/-- as shipped (before K07c) an instantiated generic type gives a key outside the pattern -/
+theorem schemaNameAsIs_witness :
+    nameOK (schemaNameAsIs (s "Page[example.com/api.Item]") (s "example.com/api")) = false := by decide
+
+theorem schemaName_fixed_on_witness :
+    schemaName (s "Page[example.com/api.Item]") (s "example.com/api") = s "api.Page_example.com_api.Item_" := by decide
+
+/-! ### time.Time example (K07b) -/
+
+/-- as shipped the schema of `time.Time` depended on the clock -/
+theorem timeSchemaAsIs_witness :
+    timeSchemaAsIs (s "2026-09-26T10:00:00Z") ≠ timeSchemaAsIs (s "2026-09-26T10:00:01Z") := by
+  simp [timeSchemaAsIs, leaf, s]
+
+end Rivaas.C07
